@@ -713,6 +713,96 @@ func runPluginOne(t *Trace, pl string, proto int, args []string, reqs string, se
 	}
 }
 
+// server_id followed by one other plugin, in this process: the reply that leaves the chain must still carry
+// this server's identifier (C14 speaks about every reply, not only about server_id's own output)
+func runSidChainOne(t *Trace, other string, proto int, args []string, seed int64) {
+	r := rand.New(rand.NewSource(seed))
+	sidArgs := []string{"10.0.0.1"}
+	if proto == 6 {
+		sidArgs = []string{"LL", "00:de:ad:be:ef:00"}
+	}
+	emit := func(e Ev) {
+		e["ev"], e["proto"], e["other"], e["args"] = "sidchain", proto, other, args
+		t.Emit(e)
+	}
+	if proto == 4 {
+		sid, err := builtin["server_id"].Setup4(sidArgs...)
+		if err != nil {
+			return
+		}
+		x, err := builtin[other].Setup4(args...)
+		if err != nil || x == nil {
+			return
+		}
+		own := net.ParseIP(sidArgs[0]).To4()
+		pres := []pre4abs{{"offer", false, false}, {"offer", true, false}, {"ack", true, true}, {"ack", false, false}}
+		bat := []req4abs{
+			{mt: 1, hlen: 6, siaddr: "absent", opt54: "absent"},
+			{mt: 1, hlen: 6, prlhas: true, prl: []int{6, 26, 66, 67, 108}, siaddr: "absent", opt54: "absent"},
+			{mt: 3, hlen: 6, prlhas: true, prl: []int{66}, siaddr: "own", opt54: "own"},
+			{mt: 1, hlen: 6, ac: true, siaddr: "zero", opt54: "absent"},
+			{mt: 3, hlen: 6, prlhas: true, prl: []int{1, 3}, siaddr: "absent", opt54: "own"},
+		}
+		for _, a := range bat {
+			for _, p := range pres {
+				req, resp, err := buildPlug4(a, p, own, r)
+				if err != nil {
+					continue
+				}
+				var out *dhcpv4.DHCPv4
+				var stop bool
+				pan, _ := callWatch(func() {
+					out, stop = sid(req, resp)
+					if !stop && out != nil {
+						out, _ = x(req, out)
+					}
+				})
+				e := Ev{"nil": out == nil, "panic": pan != nil, "sidok": false, "siaddrok": false}
+				if out != nil && pan == nil {
+					if back, err := dhcpv4.FromBytes(out.ToBytes()); err == nil {
+						e["sidok"] = bytes.Equal(back.Options.Get(dhcpv4.OptionServerIdentifier), own)
+						e["siaddrok"] = back.ServerIPAddr.Equal(own)
+					}
+				}
+				emit(e)
+			}
+		}
+		return
+	}
+	sid, err := builtin["server_id"].Setup6(sidArgs...)
+	if err != nil {
+		return
+	}
+	x, err := builtin[other].Setup6(args...)
+	if err != nil || x == nil {
+		return
+	}
+	ownDUID := expected6("server_id", sidArgs)[2]
+	for _, a := range []req6abs{{typ: 1, oro: []int{23, 59, 60}, sid: "none"}, {typ: 3, oro: []int{23}, sid: "same"}, {typ: 11, oro: []int{59}, sid: "none"},
+		{typ: 1, sid: "none", depth: 2, oro: []int{60}}, {typ: 5, sid: "same", depth: 1}} {
+		req, resp, err := buildPlug6(a, ownDUID, r)
+		if err != nil {
+			continue
+		}
+		var out dhcpv6.DHCPv6
+		var stop bool
+		pan, _ := callWatch(func() {
+			out, stop = sid(req, resp)
+			if !stop && out != nil {
+				out, _ = x(req, out)
+			}
+		})
+		e := Ev{"nil": out == nil, "panic": pan != nil, "sidok": false, "siaddrok": true}
+		if out != nil && pan == nil {
+			if back, err := dhcpv6.FromBytes(out.ToBytes()); err == nil {
+				got := opts6(back)[2]
+				e["sidok"] = len(got) == 1 && bytes.Equal(got[0], ownDUID)
+			}
+		}
+		emit(e)
+	}
+}
+
 // accepted configurations for the decision tables (C14 C17)
 func tableConfigs() []struct {
 	pl    string
@@ -787,6 +877,14 @@ func runPlugins(args []string) error {
 		return err
 	}
 	defer t.Close()
+	if *mode == "sidone" {
+		var a []string
+		if err := json.Unmarshal([]byte(*jargs), &a); err != nil {
+			return err
+		}
+		runSidChainOne(t, *plug, *proto, a, *seed)
+		return nil
+	}
 	if *mode == "one" {
 		var a []string
 		if err := json.Unmarshal([]byte(*jargs), &a); err != nil {
@@ -826,6 +924,12 @@ func runPlugins(args []string) error {
 	if *mode == "table" {
 		for _, c := range tableConfigs() {
 			jobs = append(jobs, job{c.pl, c.proto, c.args, "table"})
+		}
+	} else if *mode == "sidchain" {
+		for _, c := range tableConfigs() {
+			if c.pl != "server_id" {
+				jobs = append(jobs, job{c.pl, c.proto, c.args, "sidchain"})
+			}
 		}
 	} else {
 		kinds := argKinds(*dir)
@@ -898,7 +1002,11 @@ func runPlugins(args []string) error {
 			defer func() { <-sem }()
 			ja, _ := json.Marshal(j.args)
 			tmp := filepath.Join(*dir, fmt.Sprintf("one-%d.ndjson", i))
-			cmd := exec.Command(self, "plugins", "-mode", "one", "-plugin", j.pl, "-proto", strconv.Itoa(j.proto), "-args", string(ja),
+			childMode := "one"
+			if j.reqs == "sidchain" {
+				childMode = "sidone"
+			}
+			cmd := exec.Command(self, "plugins", "-mode", childMode, "-plugin", j.pl, "-proto", strconv.Itoa(j.proto), "-args", string(ja),
 				"-reqs", j.reqs, "-seed", strconv.FormatInt(*seed*100003+int64(i), 10), "-out", tmp)
 			cmd.Dir = *dir
 			var stderr bytes.Buffer
